@@ -306,3 +306,147 @@ def compare_structure(drv, rows, res, real, table):
         if a != b:
             return "disagree", {"what": f"event {i} differs", "model": a, "real": b}
     return "disagree", {"what": "event count differs", "model": len(ans["events"]), "real": len(real)}
+
+
+# ------------------------------------------------------------------ content indexes (templates, insert_as_block)
+
+
+def _normalise(raw):
+    """raw tracer events → model events (open / close / row / insert, nested)"""
+    events = []
+    i = 0
+    while i < len(raw):
+        e = raw[i]
+        k = e["ev"]
+        if k == "push":
+            if i + 1 < len(raw) and raw[i + 1]["ev"] == "begin_edges":
+                events.append({"ev": "open", "edges": raw[i + 1]["edges"], "starting": False})
+                i += 2
+            else:
+                events.append({"ev": "open", "edges": [], "starting": True})
+                i += 1
+        elif k == "pop":
+            nxt = raw[i + 1] if i + 1 < len(raw) else None
+            if nxt and nxt["ev"] == "closed":
+                events.append({"ev": "close", "row_id": nxt["row_id"]})
+                i += 2
+            else:
+                events.append({"ev": "close", "row_id": ""})
+                i += 1
+        elif k == "row":
+            if e["row"]["type"] == "insert_as_block" and i + 1 < len(raw) and raw[i + 1]["ev"] == "insert_body":
+                events.append({"ev": "insert", "row": e["row"], "events": _normalise(raw[i + 1]["events"])})
+                i += 2
+            else:
+                events.append(e)
+                i += 1
+        else:
+            i += 1   # stray 'closed' of an inserted block's append (handled by the insert event)
+    return events
+
+
+def trace_index(sheets: dict, tags=None):
+    """real ContentIndexParser run with every FlowParser traced → (CompileResult, {flow name: events})"""
+    import rpft.parsers.creation.contentindexparser as cip
+    from rpft.parsers.creation.flowparser import FlowParser, NodeGroup
+    from rpft.parsers.creation.tagmatcher import TagMatcher
+
+    from .flows import mem_reader
+
+    cur = [None]        # the raw event list being written
+    per_flow = {}
+
+    class Stack(list):
+        def append(self, x):
+            cur[0].append({"ev": "push"})
+            super().append(x)
+
+        def pop(self, *a):
+            cur[0].append({"ev": "pop"})
+            return super().pop(*a)
+
+    class Tracer(FlowParser):
+        def __init__(self, *a, **kw):
+            super().__init__(*a, **kw)
+            self.node_group_stack = Stack(self.node_group_stack)
+
+        def _parse_row(self, row):
+            cur[0].append({"ev": "row", "row": row_json(row)})
+            super()._parse_row(row)
+
+        def _parse_noop_row(self, row, store_row_id=True):
+            if not store_row_id:
+                cur[0].append({"ev": "begin_edges", "edges": _edges_json(row)})
+            super()._parse_noop_row(row, store_row_id)
+
+        def append_node_group(self, g, row_id):
+            if isinstance(g, NodeGroup) and not getattr(g, "_inserted", False):
+                cur[0].append({"ev": "closed", "row_id": row_id or ""})
+            super().append_node_group(g, row_id)
+
+        def parse_as_block(self):
+            parent = cur[0]
+            mine = []
+            cur[0] = mine
+            try:
+                g = super().parse_as_block()
+                g._inserted = True
+                return g
+            finally:
+                cur[0] = parent
+                parent.append({"ev": "insert_body", "events": mine})
+
+        def parse(self, add_to_container=True):
+            mine = []
+            cur[0] = mine
+            try:
+                return super().parse(add_to_container)
+            finally:
+                per_flow[self.flow_name] = mine
+                cur[0] = None
+
+    res = CompileResult()
+    saved = cip.FlowParser
+    cip.FlowParser = Tracer
+    try:
+        with LogCapture() as cap:
+            try:
+                parser = cip.ContentIndexParser(mem_reader(sheets), None, TagMatcher(tags or []))
+                res.doc = parser.parse_all().render()
+            except BaseException as e:  # noqa: BLE001
+                if isinstance(e, (KeyboardInterrupt, SystemExit)):
+                    raise
+                res.exc = f"{type(e).__name__}: {e}"
+        res.errors = cap.errors()
+        res.warnings = cap.warnings()
+    finally:
+        cip.FlowParser = saved
+    return res, {k: _normalise(v) for k, v in per_flow.items()}
+
+
+def compare_index(drv, res: CompileResult, per_flow):
+    """('agree'|'both_error'|'unsupported'|'disagree', detail) over all flows of a workbook"""
+    if not res.ok:
+        # some flow failed: the model must fail on at least one flow as well
+        answers = drv.results([{"op": "compile.run", "events": ev} for ev in per_flow.values()]) if per_flow else []
+        if not per_flow or any("err" in a or "__error__" in a for a in answers):
+            return "both_error", {}
+        return "both_error", {"note": "index-level error (not a flow)"}
+    flows = {f["name"]: f for f in res.doc["flows"]}
+    names = [n for n in per_flow if n in flows]
+    answers = drv.results([{"op": "compile.run", "events": per_flow[n]} for n in names])
+    for n, ans in zip(names, answers):
+        if "__error__" in ans:
+            return "disagree", {"flow": n, "driver": ans}
+        if ans.get("err") == "unsupported":
+            return "unsupported", ans
+        if "nodes" not in ans:
+            return "disagree", {"flow": n, "what": "model reports an error, the real compiler does not", "model": ans}
+        real_nodes = _canon_nodes(canon_flow(flows[n])["nodes"], lambda s: bool(UUID4.match(s)))
+        model_nodes = _canon_nodes(ans["nodes"], lambda s: s.startswith("~"))
+        if real_nodes != model_nodes:
+            for i, (a, b) in enumerate(zip(real_nodes, model_nodes)):
+                if a != b:
+                    return "disagree", {"flow": n, "what": f"node {i} differs", "real": a, "model": b}
+            return "disagree", {"flow": n, "what": "node count differs", "real": len(real_nodes), "model": len(model_nodes)}
+    return "agree", {"flows": len(names)}
